@@ -217,6 +217,26 @@ ADDENDA7 = {
  "C19": " Round eight: no routine of the find client hands out a response while cancelling, on return, a context it derived for the request (positive example kept); the status of every API error is put on the wire.",
  "C20": " Round eight: the tcp component's value is the URL's port or, only where the URL has none, a configured default.",
 }
+ADDENDA8 = {
+ "C01": " Round nine: the subscriber-wide entries selector explores exactly the Next field.",
+ "C03": " Round nine: the head link is mandatory in the schema while its CID is taken without a test; `ID = cmp.Or(ID, found)` keeps the ID given.",
+ "C04": " Round nine: no field is written through a pointer obtained from an atomic Load (saved state is a copy).",
+ "C05": " Round nine: the Go structs list their fields in the schema's order (bindnode binds by position).",
+ "C06": " Round nine: the JSON wire names of ProviderInfo are those of the reference table; with the maps package, entries leave the rebuilt main map by key, never by value.",
+ "C07": " Round nine: the write token's channel has capacity exactly 1; with the maps package, the pending updates are copied over the old main map afterwards.",
+ "C08": " Round nine: methods of mutex-holding types have pointer receivers.",
+ "C10": " Round nine: the JSON wire names of Message are those of the reference table; a cap tested on a sign-changing conversion of the length is no cap.",
+ "C11": " Round nine: the Unknown decoder's cap is not below the advertisement's metadata limit.",
+ "C12": " Round nine: a salt that is appended to is the []byte conversion of a constant (no spare capacity).",
+ "C15": " Round nine: a timer callback that re-arms its timer tests the closing signal afterwards; every function-typed field Close calls is set somewhere.",
+ "C16": " Round nine: methods of mutex-holding types have pointer receivers.",
+ "C17": " Round nine: the JSON wire names of the provider record and its extended-provider parts are those of the reference table.",
+ "C18": " Round nine: the JSON wire names of IngestRequest are those of the reference table.",
+ "C19": " Round nine: the JSON wire names of the response types are those of the reference table; a strings.Cut walk over an Accept value continues while a separator is found; the legacy path protocol keeps its own transcoder and validator.",
+ "C20": " Round nine: the legacy path protocol is registered with the package's own transcoder and validator.",
+}
+for _pid, _extra in ADDENDA8.items():
+    ADDENDA7[_pid] = ADDENDA7.get(_pid, "") + _extra
 for _pid, _extra in ADDENDA7.items():
     ADDENDA6[_pid] = ADDENDA6.get(_pid, "") + _extra
 for _pid, _extra in ADDENDA6.items():
